@@ -168,12 +168,12 @@ func init() {
 			{Pkg: "jpeg2000/colorspace", Fn: "VerifC20RCT", Desc: "ApplyInverseRCTToComponents(ApplyRCTToComponents(x)) == x and the scalar pair, all values symbolic", Bounds: [2]string{"2 pixels, |v| <= 2^28", "same"}},
 			{Pkg: "jpeg2000/wavelet", Fn: "VerifC20DWT1D", Desc: "Inverse53_1DWithParity(Forward53_1DWithParity(x)) == x, all samples symbolic", Bounds: [2]string{"every length 1..16, both parities", "every length 1..40"}, Params: [2]map[string]int64{P("maxN", 16), P("maxN", 40)}},
 			{Pkg: "jpeg2000/wavelet", Fn: "VerifC20DWT2D", Desc: "InverseMultilevelWithParity(ForwardMultilevelWithParity(x)) == x, all samples symbolic", Bounds: [2]string{"every w,h in 1..8, levels 0..3, origin parities {0,1}^2", "every w,h in 1..16, levels 0..5"}, Params: [2]map[string]int64{P("maxS", 8, "maxLevels", 3), P("maxS", 16, "maxLevels", 5)}},
-			{Pkg: "jpeg2000/wavelet", Fn: "VerifC20Layout", Desc: "nextLowpassWindow / LLDimensionsWithParity size arithmetic for symbolic width, height, origin in [1,2^16]", Bounds: [2]string{"levels 0..6 (deep levels decided by the one-shot solvers)", "same"}, BudgetS: [2]int{900, 2400}, OnlyTier: 2},
+			{Pkg: "jpeg2000/wavelet", Fn: "VerifC20Layout", Desc: "nextLowpassWindow / LLDimensionsWithParity size arithmetic for symbolic width, height, origin in [1,2^16]", Bounds: [2]string{"levels 0..6 (deep levels decided by the one-shot solvers)", "same"}, BudgetS: [2]int{900, 1500}, OnlyTier: 2},
 			{Pkg: "jpeg2000/mqc", Fn: "VerifC20MQ", Label: "mq:initial-state", Desc: "MQ Encode/Flush -> Decode for every (bit, context) sequence of length k over 2 contexts from the initial state (contexts enumerated, bits symbolic)", Bounds: [2]string{"k = 6", "k = 9"}, Params: [2]map[string]int64{P("k", 6, "symstates", 0), P("k", 9, "symstates", 0)}, Enumerative: true},
 			{Pkg: "jpeg2000/mqc", Fn: "VerifC20MQ", Label: "mq:symbolic-state", Desc: "the same from symbolic context states (state index 0..46 and MPS bit per context are solver variables; qeTable/nmps/nlps/switch become look-up terms)", Bounds: [2]string{"k = 1", "k = 2"}, Params: [2]map[string]int64{P("k", 1, "symstates", 1), P("k", 2, "symstates", 1)}},
 			{Pkg: "jpeg2000/mqc", Fn: "VerifC20MQDecVsRef", Desc: "library MQ decoder vs a transcription of the Annex C decoding procedures on fully symbolic codeword bytes (every FF xx pair, end-of-data handling)", Bounds: [2]string{"3 codeword bytes, 8 decisions, one context", "5 codeword bytes, 14 decisions"}, Params: [2]map[string]int64{P("bytes", 3, "k", 8), P("bytes", 5, "k", 14)}},
 			{Pkg: "jpeg2000/t1", Fn: "VerifC20T1Styles", Desc: "EncodeLayered -> DecodeLayeredWithMode with the encoder's pass lengths for code-block styles (bypass, reset, terminate-all, vertically causal, predictable termination, segmentation symbols): 2-sample blocks with one 5-bit-plane coefficient next to a small one, values and signs symbolic", Bounds: [2]string{"3 styles x 2 orientations", "9 styles x 4 orientations"}, Params: [2]map[string]int64{P("styles", 3, "orients", 2), P("styles", 9, "orients", 4)}, Enumerative: true},
-			{Pkg: "jpeg2000/t1", Fn: "VerifC20T1", Desc: "T1 Encode -> DecodeWithBitplane on small blocks, all passes, orientation 0..3, style 0; sign and magnitude bits symbolic", Bounds: [2]string{"blocks 1x1,2x1,1x2, |c| < 4", "+ 2x2, 1x5, |c| < 4 (1x1..1x2: < 8)"}, Params: [2]map[string]int64{P("shapes", 3, "magbits", 2), P("shapes", 5, "magbits", 2)}, Enumerative: true, BudgetS: [2]int{240, 3000}},
+			{Pkg: "jpeg2000/t1", Fn: "VerifC20T1", Desc: "T1 Encode -> DecodeWithBitplane on small blocks, all passes, orientation 0..3, style 0; sign and magnitude bits symbolic", Bounds: [2]string{"blocks 1x1,2x1,1x2, |c| < 4", "+ 2x2, 1x5, |c| < 4 (1x1..1x2: < 8)"}, Params: [2]map[string]int64{P("shapes", 3, "magbits", 2), P("shapes", 5, "magbits", 2)}, Enumerative: true, BudgetS: [2]int{240, 1500}},
 		}})
 
 	lsInv := "adaptive context state is arbitrary under the invariant 1 <= N <= RESET(64), 0 <= A < 2^24, -N < B <= 0, -128 <= C <= 127 (shown preserved by the same harness); neighbours and sample arbitrary in [0, MAXVAL]"
@@ -182,9 +182,9 @@ func init() {
 		Assumptions: []string{lsInv, "run mode (run-length coding, run interruption) and the line/neighbour bookkeeping of encodeComponent/decodeComponent are NOT covered: whole-image symbolic execution of JPEG-LS did not finish within the budget (2x1 at P=8: > 15 min)"},
 		Harnesses: []Harness{
 			{Pkg: "jpegls/lossless", Fn: "VerifC03Regular", Desc: "one regular-mode sample, real encodeRegularSample and decodeRegularSample in lock-step from an arbitrary context state: decoder reconstructs the sample, states stay equal, invariant preserved, Golomb precondition holds",
-				Bounds: [2]string{"P in {7,12} x context sign +; P=16 covered in thorough", "every P 2..16 x 2 context ids (one per sign)"}, Params: [2]map[string]int64{P("nP", 2, "nqs", 1), P("nP", 15, "nqs", 2)}, Stubs: []string{golombCut}, BudgetS: [2]int{400, 3300}},
+				Bounds: [2]string{"P in {7,12} x context sign +; P=16 covered in thorough", "every P 2..16 x 2 context ids (one per sign)"}, Params: [2]map[string]int64{P("nP", 2, "nqs", 1), P("nP", 15, "nqs", 2)}, Stubs: []string{golombCut}, BudgetS: [2]int{400, 1500}},
 			{Pkg: "jpegls/lossless", Fn: "VerifC03Component", Desc: "real encodeComponent -> decodeComponent (single-component coder with its inline regular-mode code, neighbour bookkeeping, run mode and run interruption on the concrete prefix) on a 3x2 image whose last sample and whose context state are symbolic",
-				Bounds: [2]string{"P=7, 2 value patterns (both context signs)", "every P 2..16"}, Params: [2]map[string]int64{P("nP", 1), P("nP", 15)}, Stubs: []string{golombCut}, BudgetS: [2]int{400, 3300}},
+				Bounds: [2]string{"P=7, 2 value patterns (both context signs)", "every P 2..16"}, Params: [2]map[string]int64{P("nP", 1), P("nP", 15)}, Stubs: []string{golombCut}, BudgetS: [2]int{400, 1500}},
 			{Pkg: "jpegls/lossless", Fn: "VerifC03BitChannel", Desc: "GolombWriter.WriteBits/Flush -> GolombReader.ReadBits: K writes of up to 31 symbolic bits (the solver chooses the bytes, so every FF-stuffing case incl. two stuffed bytes in one flush occurs), values returned, stuffing rule on the bytes",
 				Bounds: [2]string{"K <= 3 writes, widths {31,16,9,1}", "K <= 4, widths {31,16,9,1,24,7}"}, Params: [2]map[string]int64{P("maxK", 3, "widths", 4), P("maxK", 4, "widths", 6)}},
 			{Pkg: "jpegls/lossless", Fn: "VerifC03Golomb", Desc: "real limited-length Golomb code: EncodeMappedValue -> DecodeValue for symbolic mapped values, k 0..8, six precisions, with following bits and JPEG-LS bit stuffing checked",
@@ -194,11 +194,11 @@ func init() {
 		Assumptions: []string{lsInv, "run mode and whole-image bookkeeping are not covered (see C03)"},
 		Harnesses: []Harness{
 			{Pkg: "jpegls/nearlossless", Fn: "VerifC07Traits", Desc: "quantise -> modulo RANGE -> dequantise -> fix-up kernel for every precision: |reconstruction - x| <= NEAR and 0 <= reconstruction <= MAXVAL for all (prediction, sample)",
-				Bounds: [2]string{"P 2..16, NEAR in {0,1,2,3,min(255,MAXVAL/2)}", "P 2..16, 20 NEAR values up to min(255,MAXVAL/2)"}, BudgetS: [2]int{300, 2400}},
+				Bounds: [2]string{"P 2..16, NEAR in {0,1,2,3,min(255,MAXVAL/2)}", "P 2..16, 20 NEAR values up to min(255,MAXVAL/2)"}, BudgetS: [2]int{300, 1500}},
 			{Pkg: "jpegls/nearlossless", Fn: "VerifC07Component", Desc: "real near-lossless encodeComponent -> decodeComponent (inline regular-mode code, run mode on the concrete prefix) on a 3x2 image whose last sample and context state are symbolic: every decoded sample within NEAR and in range; encoder and decoder use the same (k, LIMIT, qbpp)",
-				Bounds: [2]string{"P=6, NEAR=1", "P in {6,8,12} x NEAR in {1,2,0,3} (within the wall budget)"}, Params: [2]map[string]int64{P("nP", 1, "nNear", 1), P("nP", 3, "nNear", 4)}, Stubs: []string{golombCut}, BudgetS: [2]int{400, 3300}},
+				Bounds: [2]string{"P=6, NEAR=1", "P in {6,8,12} x NEAR in {1,2,0,3} (within the wall budget)"}, Params: [2]map[string]int64{P("nP", 1, "nNear", 1), P("nP", 3, "nNear", 4)}, Stubs: []string{golombCut}, BudgetS: [2]int{400, 1500}},
 			{Pkg: "jpegls/nearlossless", Fn: "VerifC07Regular", Desc: "one regular-mode sample of the near-lossless coder in lock-step from an arbitrary context state: |decoded - x| <= NEAR, range, encoder reconstruction == decoder reconstruction, states equal",
-				Bounds: [2]string{"P=8, NEAR=0, 1 context", "P in {8,12}, NEAR in {0,1,2,3}, 2 contexts (within the wall budget)"}, Params: [2]map[string]int64{P("fix.Pi", 1, "fix.near", 0, "fix.q", 0), P("nP", 2)}, Stubs: []string{golombCut}, BudgetS: [2]int{400, 3300}},
+				Bounds: [2]string{"P=8, NEAR=0, 1 context", "P in {8,12}, NEAR in {0,1,2,3}, 2 contexts (within the wall budget)"}, Params: [2]map[string]int64{P("fix.Pi", 1, "fix.near", 0, "fix.q", 0), P("nP", 2)}, Stubs: []string{golombCut}, BudgetS: [2]int{400, 1500}},
 		}})
 	reg(Check{Property: "C14",
 		Assumptions: []string{lsInv, "reference = transcription of T.87 A.4.2-A.6.2 (refRegular in harness/jpegls/lossless/zz_verif_c14.go); NEAR = 0; run mode, the bit-exact stream, cross-decoding between the two packages and the H.3 vector are NOT covered"},
@@ -206,7 +206,7 @@ func init() {
 			{Pkg: "jpegls/lossless", Fn: "VerifC14Params", Desc: "default coding parameters for every precision 2..16 and every NEAR 0..min(255,MAXVAL/2) (NEAR symbolic): T1,T2,T3 equal T.87 C.2.4.1.1.1; RANGE, qbpp, LIMIT equal A.2.1",
 				Bounds: [2]string{"all (P, NEAR) pairs", "same"}},
 			{Pkg: "jpegls/lossless", Fn: "VerifC14RegularVsRef", Desc: "library encoder's regular-mode step vs the T.87 procedure from an arbitrary state: same Golomb parameter, same mapped error value, same A/B/C/N afterwards",
-				Bounds: [2]string{"P in {7,12}, 1 context id", "every P 2..16, 2 context ids"}, Params: [2]map[string]int64{P("nqs", 1), P("nqs", 2)}, Stubs: []string{"EncodeMappedValue replaced by a recorder of (k, mapped) under the engine"}, BudgetS: [2]int{400, 3300}},
+				Bounds: [2]string{"P in {7,12}, 1 context id", "every P 2..16, 2 context ids"}, Params: [2]map[string]int64{P("nqs", 1), P("nqs", 2)}, Stubs: []string{"EncodeMappedValue replaced by a recorder of (k, mapped) under the engine"}, BudgetS: [2]int{400, 1500}},
 		}})
 
 	hdrCut := "sample loops (pixel conversion, table optimisation, scan coding) replaced by no-ops under the engine so that width/height can range over the whole 16-bit field; complete frames with real entropy-coded data are covered by VerifC16Stream on tiny images"
@@ -232,9 +232,9 @@ func init() {
 			{Pkg: "jpeg2000", Fn: "VerifC04Samples", Desc: "sample layer: convertPixelData + DC shift (+RCT) -> inverse RCT + inverse DC shift + GetPixelData is the identity on bytes for every precision 1..16, unsigned and two's-complement signed, 1..4 components; all sample bits symbolic",
 				Bounds: [2]string{"2 pixels", "same"}},
 			{Pkg: "jpeg2000", Fn: "VerifC04EndToEnd", Desc: "whole reversible single-tile pipeline Encode -> codestream -> Decode -> GetPixelData on tiny images, symbolic pixels, levels 0..1, progression orders",
-				Bounds: [2]string{"1x1, 2x1, 1x2 at P=2, progression 0..1", "1x1..2x2 and 1x1x3 at P in {2,3}, all 5 progression orders"}, Params: [2]map[string]int64{P("ngeom", 3, "nP", 1, "nprog", 2), P("ngeom", 5, "nP", 2, "nprog", 5)}, Enumerative: true, BudgetS: [2]int{300, 3000}},
+				Bounds: [2]string{"1x1, 2x1, 1x2 at P=2, progression 0..1", "1x1..2x2 and 1x1x3 at P in {2,3}, all 5 progression orders"}, Params: [2]map[string]int64{P("ngeom", 3, "nP", 1, "nprog", 2), P("ngeom", 5, "nP", 2, "nprog", 5)}, Enumerative: true, BudgetS: [2]int{300, 1500}},
 			{Pkg: "jpeg2000", Fn: "VerifC04Structure", Desc: "codestream structure over configurations (fixed pseudo-random contents, one path per configuration, real encoder/packet writer/parser/packet reader/decoder): 7 image sizes incl. 33x33, 17x8, 1x9; 1 and 3 components; levels; 5 progression orders; precinct sizes {default, 8, 32}; code-blocks {4, 8, 64}; layers",
-				Bounds: [2]string{"6 sizes up to 17x9, levels 0..1, precinct {default,8}, code-block {4,8}, layers 1..2 (960 configurations)", "levels 0..2, precinct {default,8,32}, code-block {4,8,64}, layers 1..2 (2940 configurations)"}, Params: [2]map[string]int64{P("nsize", 6, "maxLevels", 1, "nprec", 2, "ncb", 2, "maxLayers", 2), P("nsize", 7, "maxLevels", 2, "nprec", 3, "ncb", 3, "maxLayers", 2)}, Enumerative: true, MaxSteps: 4_000_000_000, BudgetS: [2]int{600, 3000}},
+				Bounds: [2]string{"6 sizes up to 17x9, levels 0..1, precinct {default,8}, code-block {4,8}, layers 1..2 (960 configurations)", "levels 0..2, precinct {default,8,32}, code-block {4,8,64}, layers 1..2 (2940 configurations)"}, Params: [2]map[string]int64{P("nsize", 6, "maxLevels", 1, "nprec", 2, "ncb", 2, "maxLayers", 2), P("nsize", 7, "maxLevels", 2, "nprec", 3, "ncb", 3, "maxLayers", 2)}, Enumerative: true, MaxSteps: 4_000_000_000, BudgetS: [2]int{600, 1500}},
 			{Pkg: "jpeg2000/t2", Fn: "VerifC04PacketCodes", Desc: "packet-header pass-count code for every count 1..164 through the real bit writer/reader with following bits", Bounds: [2]string{"all 164 counts", "same"}, Enumerative: true},
 			{Pkg: "jpeg2000/t2", Fn: "VerifC16Bio", Label: "packet-header-bit-io", Desc: "packet-header bit writer/reader with FF bit-stuffing: written values come back", Bounds: [2]string{"K <= 2 writes of widths {1,3,8}", "K <= 3"}, Params: [2]map[string]int64{P("maxK", 2), P("maxK", 3)}, Enumerative: true},
 			{Pkg: "jpeg2000/wavelet", Fn: "VerifC20DWT2D", Label: "dwt53-2d", Desc: "multi-level 5/3 DWT with origin parity is exactly invertible (all values)", Bounds: [2]string{"w,h <= 8, levels 0..3", "w,h <= 16, levels 0..5"}, Params: [2]map[string]int64{P("maxS", 8, "maxLevels", 3), P("maxS", 16, "maxLevels", 5)}},
@@ -246,7 +246,7 @@ func init() {
 			{Pkg: "jpeg2000/lossless", Fn: "VerifC05Params", Desc: "Validate + configureLosslessEncodeParams for every admitted parameter object: reversible path kept, levels 0..6, >= 1 layer, and a rate target only together with the final-lossless-layer switch and >= 2 layers (explicit ladders end with rate 0)",
 				Bounds: [2]string{"9 rates x 4 ratios x 4 ladders (one symbolic) x 4 bit-depth pairs x symbolic levels/layers/progression", "same"}},
 			{Pkg: "jpeg2000/lossless", Fn: "VerifC05Codec", Desc: "the Lossless-Only codec end to end over admitted parameter objects (Rate x TargetRatio x NumLayers x PCRD switch x AppendLosslessLayer x levels x progression order) on fixed noise / ramp frames (16/11-bit grey, 8-bit RGB, 1-pixel-wide, tiny): Decode(Encode(frame)) == frame; the rate-distortion allocation, packet-encoder state and final-layer bookkeeping run for real (one path per parameter object)",
-				Bounds: [2]string{"2 frames (29x44 16/11-bit, 33x42 RGB), layers {1,2,3}, default levels", "5 frames, layers {1,2,3,6,8}, levels {5,1,0}"}, Params: [2]map[string]int64{P("nimg", 2, "nlayers", 3, "nlevels", 1), P("nimg", 5, "nlayers", 5, "nlevels", 3)}, Enumerative: true, MaxSteps: 4_000_000_000, BudgetS: [2]int{600, 3000}},
+				Bounds: [2]string{"2 frames (29x44 16/11-bit, 33x42 RGB), layers {1,2,3}, default levels", "5 frames, layers {1,2,3,6,8}, levels {5,1,0}"}, Params: [2]map[string]int64{P("nimg", 2, "nlayers", 3, "nlevels", 1), P("nimg", 5, "nlayers", 5, "nlevels", 3)}, Enumerative: true, MaxSteps: 4_000_000_000, BudgetS: [2]int{600, 1500}},
 		}})
 	reg(Check{Property: "C19",
 		Assumptions: []string{j2kEnum, "NOT covered: tiles with decomposition levels beyond 1, multiple layers / global rate allocation over tiles, images beyond the stated sizes"},
@@ -256,9 +256,9 @@ func init() {
 			{Pkg: "jpeg2000", Fn: "VerifC19Placement", Desc: "encoder tile extraction (transformTile, no levels) followed by decoder AssembleTile is the identity for every image up to 4x4 (thorough 6x6), every tile size, 1 and 3 components, symbolic contents",
 				Bounds: [2]string{"images <= 4x4", "images <= 6x6"}, Params: [2]map[string]int64{P("maxS", 4), P("maxS", 6)}},
 			{Pkg: "jpeg2000", Fn: "VerifC04EndToEnd", Label: "tiled-end-to-end", Desc: "multi-tile Encode -> Decode on tiny images with symbolic pixels: every tile size smaller than the image (partial tiles, odd origins), levels 0..1",
-				Bounds: [2]string{"2x1, 1x2, 2x2 at P=2", "+ 3x2, 3x1 at P=2"}, Params: [2]map[string]int64{P("geom0", 1, "ngeom", 4, "tiles", 1), P("geom0", 1, "ngeom", 7, "tiles", 1)}, Enumerative: true, BudgetS: [2]int{400, 3000}},
+				Bounds: [2]string{"2x1, 1x2, 2x2 at P=2", "+ 3x2, 3x1 at P=2"}, Params: [2]map[string]int64{P("geom0", 1, "ngeom", 4, "tiles", 1), P("geom0", 1, "ngeom", 7, "tiles", 1)}, Enumerative: true, BudgetS: [2]int{400, 1500}},
 			{Pkg: "jpeg2000", Fn: "VerifC04Structure", Label: "tiled-structure", Desc: "multi-tile codestream structure over configurations (fixed pseudo-random contents, one path per configuration): 7 image sizes, tiles 8x8 / 16x8 / 4x8 (partial right and bottom tiles, one-sample-wide tiles, tiles smaller than the default code-block), 1 and 3 components, levels (tile sizes a multiple of 2^levels: the odd-origin case is known finding F17), 5 progression orders, layers 1..3, default code-block and precinct size",
-				Bounds: [2]string{"6 sizes up to 17x9, levels 0..1, layers 1..2", "7 sizes up to 33x33, levels 0..2, layers 1..3"}, Params: [2]map[string]int64{P("nsize", 6, "maxLevels", 1, "nprec", 1, "cb0", 2, "ncb", 3, "maxLayers", 2, "tiles", 1), P("nsize", 7, "maxLevels", 2, "nprec", 1, "cb0", 2, "ncb", 3, "maxLayers", 3, "tiles", 1)}, Enumerative: true, MaxSteps: 4_000_000_000, BudgetS: [2]int{600, 3000}},
+				Bounds: [2]string{"6 sizes up to 17x9, levels 0..1, layers 1..2", "7 sizes up to 33x33, levels 0..2, layers 1..3"}, Params: [2]map[string]int64{P("nsize", 6, "maxLevels", 1, "nprec", 1, "cb0", 2, "ncb", 3, "maxLayers", 2, "tiles", 1), P("nsize", 7, "maxLevels", 2, "nprec", 1, "cb0", 2, "ncb", 3, "maxLayers", 3, "tiles", 1)}, Enumerative: true, MaxSteps: 4_000_000_000, BudgetS: [2]int{600, 1500}},
 		}})
 
 	wrapDesc := "every listed codec wrapper through the go-dicom codec interface on 2x2 8-bit frames: one output frame per input frame in order; frame i equals a fresh codec's output for frame i alone and the same object's output on a later call; caller buffers unchanged; decoded length Rows*Cols*SPP*ceil(BitsAllocated/8) and, for lossless syntaxes, the source bytes; the engine's write log shows no store into a package-level variable, the codec object, the shared (already valid) parameters object or a caller buffer"
@@ -277,7 +277,7 @@ func init() {
 		Assumptions: []string{"the HT block coder branches on every coefficient bit: sample values are enumerated path by path (enumerative), so only tiny frames are reached", "NOT covered: frames beyond the stated sizes, 16-bit containers, code-block sizes and explicit decomposition depths other than the codec defaults, the third-party OpenJPH/fo-dicom fixtures (the decoder's agreement with foreign streams is not decided)"},
 		Harnesses: []Harness{
 			{Pkg: "internal/zzc10", Fn: "VerifC06Codec", Desc: "HTJ2K Lossless (.201) and Lossless RPCL (.202) codecs, Encode -> Decode on tiny frames with symbolic samples (incl. 1-pixel-wide and 1-pixel-high frames whose decomposition depth is clamped to 0): decoded bytes equal the source",
-				Bounds: [2]string{"1x1 frames: BitsStored 2 (all values) and 8 (values 0,1,254,255); .201 and .202", "+ 2x1 within the wall budget (a 2x1 frame did not finish in 10 minutes when probed: reported under not_discharged when the budget is hit)"}, Params: [2]map[string]int64{P("ngeom", 1, "nP", 2), P("ngeom", 2, "nP", 2)}, Enumerative: true, MaxSteps: 900_000_000, BudgetS: [2]int{600, 3000}},
+				Bounds: [2]string{"1x1 frames: BitsStored 2 (all values) and 8 (values 0,1,254,255); .201 and .202", "+ 2x1 within the wall budget (a 2x1 frame did not finish in 10 minutes when probed: reported under not_discharged when the budget is hit)"}, Params: [2]map[string]int64{P("ngeom", 1, "nP", 2), P("ngeom", 2, "nP", 2)}, Enumerative: true, MaxSteps: 900_000_000, BudgetS: [2]int{600, 1500}},
 		}})
 	reg(Check{Property: "C11",
 		Assumptions: []string{"the numeric per-sample bound of C11 for ARBITRARY contents (DCT/IDCT accuracy, colour rounding) is NOT decided - probed and out of reach (DESIGN.md section 9.6); decided are the table structure (tables in the stream are the tables that quantised, T.81 zig-zag order, parser recovers them, edge replication) for all values, and the bound itself only on the fixed contents of the two round-trip harnesses"},
